@@ -220,6 +220,92 @@ def execute(acc, case):
     acc.sample({"case": case, "chunks": chunks[:12], "kinds": kinds[:8]}, limit=3)
 
 
+def execute_twin(acc, case):
+    """Two node objects in one process (same local identity, one connection each): each peer sends its own sequence, fragmented
+    its own way, the two streams interleaved on the virtual network; optionally one application reads late.  Each application
+    must receive exactly its own peer's sequence."""
+    rng = random.Random(case["seed"])
+    sc = N.Scenario(seed=case["seed"], strategy=case["strategy"], p=case.get("p", 0.1), role="client", apps=[16777251],
+                    lines=case["strategy"] != "rr", max_steps=1_500_000, wall_s=120)
+    wit = {"case": case}
+    with sc:
+        try:
+            if not sc.open():
+                acc.inconclusive.append("node A did not open (%r)" % (case,))
+                return
+            tw = N.Scenario.twin_of(sc)
+            if not tw.open():
+                acc.inconclusive.append("node B did not open (%r)" % (case,))
+                return
+            sides = []
+            for tag, s_, base in (("A", sc, 0), ("B", tw, 500000)):
+                msgs = []
+                for i in range(case["n"]):
+                    seq = base + i + 1
+                    msgs.append(N.app_request(seq, size=rng.choice([0, 3, 100]), dest_host=N.LOCAL[0], dest_realm=N.LOCAL[1]) if rng.random() < 0.6 else N.app_answer(seq, size=rng.choice([0, 17])))
+                encs = [R.encode(m) for m in msgs]
+                stream = b"".join(encs)
+                bounds, t = [], 0
+                for e in encs:
+                    t += len(e)
+                    bounds.append(t)
+                sides.append({"tag": tag, "sc": s_, "want": [base + i + 1 for i in range(case["n"])], "stream": stream,
+                              "chunks": segmentation(rng, len(stream), bounds, case["seg"]), "got": []})
+
+            def consumer(side):
+                def run():
+                    while True:
+                        m = side["sc"].node.get_message()
+                        if m is None:
+                            return
+                        lm = R.decode(m.dump())[0]
+                        mk = N.marker_of(lm)
+                        side["got"].append(mk if mk is not None else lm.hbh)
+                return run
+            order = list(sides)
+            if case.get("b_reads_first"):
+                order.reverse()
+            late = case.get("late_reader")
+            for side in order[:1 if late else 2]:
+                sc.sched.spawn("consumer_" + side["tag"], consumer(side))
+            first, second = (sides if rng.random() < 0.5 else sides[::-1])
+            first["sc"].inject(first["stream"], chunks=first["chunks"], settle=False)
+            second["sc"].inject(second["stream"], chunks=second["chunks"], settle=False)
+            if late:
+                # the other application starts reading only after everything has arrived
+                sc.sched.run_until(lambda: False, 0.3, "late-reader")
+                sc.sched.spawn("consumer_" + order[1]["tag"], consumer(order[1]))
+            sc.sched.run_until(lambda: all(len(x["got"]) >= len(x["want"]) for x in sides), 3.0 + 0.02 * case["n"], "twin-delivery")
+            sc.sched.run_until(lambda: False, 0.01, "grace")
+            acc.counters["executions"] += 1
+            acc.counters["twin_node_executions"] += 1
+            wit.update({x["tag"]: {"got": x["got"][:40], "want": x["want"][:40]} for x in sides})
+            wit["deaths"] = sc.sched.deaths
+            if sc.sched.deaths:
+                d = sc.sched.deaths[0]
+                acc.violation("task-died:%s:%s" % (d["task"], d["type"]), "task %s died with %s: %s" % (d["task"], d["exc"], d["traceback"][-300:]), wit)
+            else:
+                for x in sides:
+                    if x["got"] != x["want"]:
+                        foreign = [g for g in x["got"] if g not in x["want"]]
+                        key = "inbound-delivered-to-another-nodes-application" if foreign or len(x["got"]) < len(x["want"]) and any(
+                            g in x["want"] for y in sides if y is not x for g in y["got"]) else "inbound-lost" if len(x["got"]) < len(x["want"]) else "inbound-reordered-or-duplicated"
+                        acc.violation(key, "two nodes in one process: application %s received %s, its peer sent %s" % (x["tag"], x["got"][:20], x["want"][:20]), wit)
+                        break
+                else:
+                    acc.counters["messages_delivered"] += sum(len(x["got"]) for x in sides)
+        except vsched.DeadlockError as ex:
+            acc.violation("deadlock", "deadlock: %s" % ex, dict(wit, stacks=sc.sched.stacks()))
+        except vsched.WallClock as ex:
+            acc.inconclusive.append("%s (case %r)" % (ex, case))
+        except vsched.StepBudget as ex:
+            acc.inconclusive.append("step budget exhausted: %s (case %r)" % (ex, case))
+        cov = sc.coverage()
+    acc.evaluations += 1
+    acc.sigs.add(harness.sig_hash("twin/%s/%s/%s" % (case["seg"], case["strategy"], cov["schedule"])))
+    acc.counters["steps"] += cov["steps"]
+
+
 def attribute(sc, chunks, boundaries):
     """Which messages had their bytes split across two reads of the node (from the recv-chunk log)."""
     pos, cuts = 0, set()
@@ -238,7 +324,10 @@ def run_batch(b):
         realnet.run_cases(acc, b["real"])
         return acc
     for case in b["cases"]:
-        execute(acc, case)
+        if case.get("twin"):
+            execute_twin(acc, case)
+        else:
+            execute(acc, case)
     return acc
 
 
@@ -271,6 +360,10 @@ def plan(tier, seed):
         # long backlogs: hundreds of messages coalesced into one or a few reads, far more than the state machine takes per tick
         cases.append({"seed": seed * 983 + i, "n": rng.choice([150, 300, 600]), "seg": rng.choice(["whole", "whole", "random"]), "strategy": rng.choice(["rr", "rw"]),
                       "p": 0.02, "role": rng.choice(["client", "server"]), "settle": False, "max_steps": 3_000_000})
+    for i in range(24 if q else 400):
+        # a second node object in the same process, with its own connection, peer and application
+        cases.append({"twin": True, "seed": seed * 4057 + i, "n": rng.choice([1, 2, 5, 12]), "seg": rng.choice(["whole", "per-message", "random", "header-internal"]),
+                      "strategy": rng.choice(["rr", "rw"]), "p": rng.choice([0.02, 0.1]), "late_reader": i % 2 == 0, "b_reads_first": i % 4 < 2})
     for i in range(2 if q else 40):
         cases.append({"seed": seed * 977 + i, "n": 4, "big": True, "seg": rng.choice(["whole", "random"]), "strategy": "rr",
                       "role": "client", "recv_cap": rng.choice([None, 65536])})
@@ -285,18 +378,20 @@ def main(tier, seed):
     nreal, per = (4, 1) if tier == "quick" else (16, 6)
     for i in range(nreal):
         batches.append({"real": [{"kind": "inbound", "seed": seed * 7919 + i * 101 + j, "role": ("client", "server")[(i + j) % 2]} for j in range(per)]})
+    for i in range(2 if tier == "quick" else 12):
+        batches.append({"real": [{"kind": "twin-inbound", "seed": seed * 6143 + i * 11 + j} for j in range(1 if tier == "quick" else 4)]})
     acc = harness.run_workers("checks.c04_inbound", "run_batch", batches, 3000)
     harness.require_vnet_fidelity(acc)
     return harness.finish(PROP, tier, seed, "exploration", acc, RULE,
                           ["vnet is a model of Linux TCP sockets (fidelity self-test in tools/selftest_vnet.py); schedules are explored at "
                            "synchronisation-operation and source-line granularity of transport.py/setup.py/statemachine.py",
                            "bounded progress: all messages delivered within 3 virtual seconds after the last byte (the unchanged code needs milliseconds)"],
-                          t0, require_counters=("executions", "steps", "recv_chunks", "real_loopback_ok", "consumer_parked_while_messages_arrive", "library_thread_parked_while_bytes_arrive"))
+                          t0, require_counters=("executions", "steps", "recv_chunks", "real_loopback_ok", "consumer_parked_while_messages_arrive", "library_thread_parked_while_bytes_arrive", "twin_node_executions"))
 
 
 def replay(w):
     acc = harness.Acc()
-    execute(acc, w["witness"]["case"])
+    (execute_twin if w["witness"]["case"].get("twin") else execute)(acc, w["witness"]["case"])
     for v in acc.violations:
         print("VIOLATION property=C04 replay=<this>", v["key"], v["what"][:300])
     return 1 if acc.violations else 0
